@@ -28,6 +28,7 @@ Further reading on DAG circuit representation:
 https://qiskit.org/documentation/stubs/qiskit.converters.circuit_to_dag.html
 """
 
+import copy
 import functools
 import re
 import string
@@ -1205,6 +1206,8 @@ class CircuitDAG(CircuitBase):
         seq = self._slim_seq()
         noisy_ops = []
         for op in seq:
+            # the noise is attached to a copy: the operations of this circuit stay as they are
+            op = copy.deepcopy(op)
             is_controlled = False
             if isinstance(op, ops.OneQubitGateWrapper):
                 op_type_seq = [type(gate) for gate in op.unwrap()]
